@@ -306,10 +306,13 @@ func (*hnet) Run(rc *core.RunCtx) *core.RunResult {
 			res.Extra["reportonly_"+oracle]++
 			return
 		}
-		for _, v := range res.Violations {
-			if v.Oracle == oracle && v.Key == k {
-				return
-			}
+		// one violation per run, the first in the order of the checks
+		// (connections, endpoints, reassembled datagrams, streams, skipped
+		// counts): what follows is usually a consequence of it, and the
+		// worker keeps one replayable tape per run
+		if len(res.Violations) > 0 {
+			res.Extra["further_mismatch_in_violating_run"]++
+			return
 		}
 		res.Violate("C19", oracle, k, "["+flavour+"] "+detail)
 	}
@@ -515,50 +518,6 @@ func hnetCheck(flows *hnetFlows, tr *netsim.Truth, params netsim.Params, key str
 		}
 		report("connection-count", "plain/"+key, fmt.Sprintf("the capture holds %d connections, %d reported: %v", len(tr.Conns), len(flows.Conns), got))
 	}
-	for i := range tr.Conns {
-		if i >= len(flows.Conns) {
-			break
-		}
-		ct := &tr.Conns[i]
-		got := [2]*hnetDir{&flows.Conns[i].Client, &flows.Conns[i].Server}
-		// the client is the sender of the SYN
-		endpointsOK := true
-		for s := 0; s < 2; s++ {
-			d := &ct.Dirs[s]
-			if got[s].IP != ipString(d.IP) || got[s].Port != int(d.Port) {
-				endpointsOK = false
-				report("endpoint-mismatch", "plain/"+key, fmt.Sprintf("connection %d (order of first captured packet) %s: expected %s:%d, reported %s:%d",
-					i, [2]string{"client", "server"}[s], ipString(d.IP), d.Port, got[s].IP, got[s].Port))
-			}
-		}
-		if !endpointsOK {
-			continue
-		}
-		for s := 0; s < 2; s++ {
-			d := &ct.Dirs[s]
-			g := got[s]
-			feat := d.Feature() + "/"
-			res.Extra["dir_"+d.Feature()]++
-			who := fmt.Sprintf("connection %d %s %s:%d (isn %d, %d bytes sent, %d data segments captured)", i, [2]string{"client", "server"}[s], g.IP, g.Port, d.ISS, len(d.Sent), d.DataSegs)
-			stream := g.Stream
-			if !g.HasStart {
-				res.Extra["has_start_false"]++
-			}
-			switch {
-			case bytes.Equal(stream, d.Expect):
-			case d.Missing && len(stream) > len(d.Expect) && bytes.Equal(stream[:len(d.Expect)], d.Expect):
-				report("invented-data", feat+key, fmt.Sprintf("%s: the capture lacks the stream from offset %d on, yet %d bytes are reported", who, len(d.Expect), len(stream)))
-			default:
-				report("stream-mismatch", feat+key, fmt.Sprintf("%s: %s; skipped_bytes=%d", who, firstDiff(stream, d.Expect), g.Skipped))
-			}
-			switch {
-			case !d.Missing && g.Skipped != 0:
-				report("skipped-nonzero", feat+key, fmt.Sprintf("%s: nothing is missing from the capture, skipped_bytes=%d", who, g.Skipped))
-			case d.Missing && d.LaterData && g.Skipped == 0:
-				report("skipped-not-signalled", feat+key, fmt.Sprintf("%s: the capture lacks offset %d and holds later data, skipped_bytes=0", who, len(d.Expect)))
-			}
-		}
-	}
 	// IPv4 reassembly: every entry is a datagram the router fragmented, with
 	// its addresses, protocol and payload; every datagram whose fragments are
 	// all in the capture is listed, in order of completion
@@ -612,6 +571,50 @@ func hnetCheck(flows *hnetFlows, tr *netsim.Truth, params netsim.Params, key str
 		if firstSeen[k] < firstSeen[k-1] {
 			report("ipv4-reassembly", "plain/"+key, fmt.Sprintf("reassembled datagrams are not listed in order of completion (%v)", firstSeen))
 			break
+		}
+	}
+	for i := range tr.Conns {
+		if i >= len(flows.Conns) {
+			break
+		}
+		ct := &tr.Conns[i]
+		got := [2]*hnetDir{&flows.Conns[i].Client, &flows.Conns[i].Server}
+		// the client is the sender of the SYN
+		endpointsOK := true
+		for s := 0; s < 2; s++ {
+			d := &ct.Dirs[s]
+			if got[s].IP != ipString(d.IP) || got[s].Port != int(d.Port) {
+				endpointsOK = false
+				report("endpoint-mismatch", "plain/"+key, fmt.Sprintf("connection %d (order of first captured packet) %s: expected %s:%d, reported %s:%d",
+					i, [2]string{"client", "server"}[s], ipString(d.IP), d.Port, got[s].IP, got[s].Port))
+			}
+		}
+		if !endpointsOK {
+			continue
+		}
+		for s := 0; s < 2; s++ {
+			d := &ct.Dirs[s]
+			g := got[s]
+			feat := d.Feature() + "/"
+			res.Extra["dir_"+d.Feature()]++
+			who := fmt.Sprintf("connection %d %s %s:%d (isn %d, %d bytes sent, %d data segments captured)", i, [2]string{"client", "server"}[s], g.IP, g.Port, d.ISS, len(d.Sent), d.DataSegs)
+			stream := g.Stream
+			if !g.HasStart {
+				res.Extra["has_start_false"]++
+			}
+			switch {
+			case bytes.Equal(stream, d.Expect):
+			case d.Missing && len(stream) > len(d.Expect) && bytes.Equal(stream[:len(d.Expect)], d.Expect):
+				report("invented-data", feat+key, fmt.Sprintf("%s: the capture lacks the stream from offset %d on, yet %d bytes are reported", who, len(d.Expect), len(stream)))
+			default:
+				report("stream-mismatch", feat+key, fmt.Sprintf("%s: %s; skipped_bytes=%d", who, firstDiff(stream, d.Expect), g.Skipped))
+			}
+			switch {
+			case !d.Missing && g.Skipped != 0:
+				report("skipped-nonzero", feat+key, fmt.Sprintf("%s: nothing is missing from the capture, skipped_bytes=%d", who, g.Skipped))
+			case d.Missing && d.LaterData && g.Skipped == 0:
+				report("skipped-not-signalled", feat+key, fmt.Sprintf("%s: the capture lacks offset %d and holds later data, skipped_bytes=0", who, len(d.Expect)))
+			}
 		}
 	}
 }
